@@ -73,6 +73,7 @@ Caps(sm, i) == CASE sm[i] = "fs"     -> {"get", "put", "del"}
 \* ---- size boundaries present in a stack (concrete configuration = Params)
 CompSample  == 65536                 \* compression sampleSizeBytes (the default, set explicitly)
 CompMin     == 1024                  \* compression minCompressSize
+CompHdr     == 32                    \* compression headerSize
 TinkCss     == 131072                \* tink.DefaultSegmentSize (ciphertext segment)
 TinkSeg0    == TinkCss - 40 - 16     \* plaintext bytes in the first segment (tink header 40, tag 16)
 TinkSeg     == TinkCss - 16
@@ -84,20 +85,38 @@ OutboxChunk == 8388608
 Params == [compsample |-> CompSample, tinkcss |-> TinkCss, ecdata |-> 2, ecparity |-> 1, ecblock |-> EcBlock,
            cachemax |-> CacheMax, b2size |-> 5]
 HasKind(s, k) == \E i \in 1..Len(s) : Kind(s[i]) = k
+\* [n]ame, [v]alue and owning [l]ayer kind of every size boundary present in stack s
 Boundaries(s, big) ==
-  {[n |-> "hashblock", v |-> HashBlock]}
-  \cup (IF HasKind(s, "compression") THEN {[n |-> "compmin", v |-> CompMin], [n |-> "compsample", v |-> CompSample]} ELSE {})
-  \cup (IF HasKind(s, "tink") THEN {[n |-> "tinkseg1", v |-> TinkSeg0], [n |-> "tinkseg2", v |-> TinkSeg0 + TinkSeg]} ELSE {})
-  \cup (IF HasKind(s, "ec") THEN {[n |-> "ecstripe1", v |-> EcStripe], [n |-> "ecstripe2", v |-> 2 * EcStripe]} ELSE {})
-  \cup (IF HasKind(s, "cache") THEN {[n |-> "cachemax", v |-> CacheMax]} ELSE {})
-  \cup (IF HasKind(s, "outbox") /\ big THEN {[n |-> "outboxchunk", v |-> OutboxChunk]} ELSE {})
-SizeClasses(s, big) ==
-  {[b |-> "zero", d |-> 0, size |-> 0], [b |-> "one", d |-> 0, size |-> 1]}
-  \cup {[b |-> x.n, d |-> d, size |-> x.v + d] : x \in Boundaries(s, big), d \in {-1, 0, 1}}
+  {[n |-> "hashblock", v |-> HashBlock, l |-> "any"]}
+  \cup (IF HasKind(s, "compression") THEN {[n |-> "comphdr", v |-> CompHdr, l |-> "compression"],
+                                           [n |-> "compmin", v |-> CompMin, l |-> "compression"],
+                                           [n |-> "compsample", v |-> CompSample, l |-> "compression"]} ELSE {})
+  \cup (IF HasKind(s, "tink") THEN {[n |-> "tinkseg1", v |-> TinkSeg0, l |-> "tink"],
+                                    [n |-> "tinkseg2", v |-> TinkSeg0 + TinkSeg, l |-> "tink"]} ELSE {})
+  \cup (IF HasKind(s, "ec") THEN {[n |-> "ecstripe1", v |-> EcStripe, l |-> "ec"], [n |-> "ecstripe2", v |-> 2 * EcStripe, l |-> "ec"]} ELSE {})
+  \cup (IF HasKind(s, "cache") THEN {[n |-> "cachemax", v |-> CacheMax, l |-> "cache"]} ELSE {})
+  \cup (IF HasKind(s, "outbox") /\ big THEN {[n |-> "outboxchunk", v |-> OutboxChunk, l |-> "outbox"]} ELSE {})
+Tiny == {[b |-> "zero", d |-> 0, size |-> 0], [b |-> "one", d |-> 0, size |-> 1]}
+SizeClassesOf(bs) == {[b |-> x.n, d |-> d, size |-> x.v + d] : x \in bs, d \in {-1, 0, 1}}
+SizeClasses(s, big) == Tiny \cup SizeClassesOf(Boundaries(s, big))
+\* content classes.  A part store returns exactly the bytes it was given WHATEVER THEY LOOK LIKE: besides
+\* compressible / incompressible / repeating content, every layer that frames its stored data in-band (compression
+\* header, encryption part header + tink header, erasure-coding shard + frame header) is given content that BEGINS
+\* WITH a valid header of that very layer (the harness takes it from what the real layer writes), at the sizes
+\* around that layer's own thresholds.  (cache, outbox, fs and sql have no in-band framing.)
 Contents == {"zeros", "random", "repeat"}
+LikeOf(l) == CASE l = "gzip" -> {[c |-> "like-comp-none", l |-> "compression"], [c |-> "like-comp-gzip", l |-> "compression"]}
+               [] l = "zstd" -> {[c |-> "like-comp-none", l |-> "compression"], [c |-> "like-comp-zstd", l |-> "compression"]}
+               [] l = "tink" -> {[c |-> "like-tink", l |-> "tink"]}
+               [] l = "ec"   -> {[c |-> "like-ec", l |-> "ec"]}
+               [] OTHER      -> {}
+LikeContents(s) == UNION {LikeOf(s[i]) : i \in 1..Len(s)}
+CaseRec(s, c, k) == [stack |-> s, sem |-> Sem(s), sc |-> c.b, d |-> c.d, size |-> c.size, content |-> k,
+                     big |-> (c.size > CacheMax), params |-> Params]
 StaticCases(depth, big) ==
-  UNION {{[stack |-> s, sem |-> Sem(s), sc |-> c.b, d |-> c.d, size |-> c.size, content |-> k,
-            big |-> (c.size > CacheMax), params |-> Params] : c \in SizeClasses(s, big), k \in Contents} :
+  UNION {{CaseRec(s, c, k) : c \in SizeClasses(s, big), k \in Contents}
+         \cup UNION {{CaseRec(s, c, lk.c) : c \in Tiny \cup SizeClassesOf({x \in Boundaries(s, big) : x.l = lk.l})} :
+                      lk \in LikeContents(s)} :
          s \in Stacks(depth)}
 
 --------------------------------------------------------------------------
